@@ -311,9 +311,14 @@ class ArrayReadCode(Engine):
         if lang == 'python':
             flat = model.ravel()
             if model.dtype.kind == 'c':
-                exp_re, exp_im = flat.real, flat.imag
-                ok = widen_equal(np.array(list(ns.get('real', [])), dtype=np.float64), exp_re)[0] and \
-                    widen_equal(np.array(list(ns.get('imag', [])), dtype=np.float64), exp_im)[0]
+                # the values are there, real and imaginary parts alternating; how the snippet names
+                # the separated parts is its own business (they are checked when present)
+                inter = np.empty(flat.size * 2, dtype=np.float64)
+                inter[0::2], inter[1::2] = flat.real, flat.imag
+                ok = widen_equal(np.array(list(got), dtype=np.float64), inter)[0]
+                for nm, part in (('real', flat.real), ('imag', flat.imag)):
+                    if nm in ns and ok:
+                        ok = widen_equal(np.array(list(ns[nm]), dtype=np.float64), part)[0]
             else:
                 vals = list(got)
                 if len(vals) != flat.size:
@@ -606,16 +611,23 @@ class RaggedReadCode(Engine):
             raise Viol('readcode.path', f'{lang}:requested_path_not_used', f'{wantv!r} / {wanti!r}')
         m = re.search(r'\(k=(\d+)\)', code)
         pm = re.search(r'read (first|second|third)', code)
-        post = '\n__subs = [getsubarray(k) for k in range(%d)]\n' % n if lang == 'numpymemmap' else \
-            '\n__subs = [a[k] for k in range(%d)]\n' % n
+        fm = re.search(r'(?m)^def (\w+)\(\s*\w+\s*\):', code)
+        fname = fm.group(1) if fm else 'getsubarray'          # the accessor, whatever it is called
+        lines = [l for l in code.splitlines() if l.strip() and not l.lstrip().startswith('#')]
+        vm = re.match(r'\s*(\w+)\s*=', lines[-1]) if lines else None
+        exvar = vm.group(1) if vm else 'sa'                    # the variable the example statement binds
+        am = re.search(r'(?m)^(\w+) = darr\.RaggedArray', code)
+        avar = am.group(1) if am else 'a'
+        post = ('\n__subs = [%s(k) for k in range(%d)]\n' % (fname, n)) if lang == 'numpymemmap' else \
+            ('\n__subs = [%s[k] for k in range(%d)]\n' % (avar, n))
         # the snippet as emitted (with its example statement), then every k
         ns, err = None, None
         try:
             ns = exec_python_snippet(code, cwd, placeholder_target=path if lang == 'darr' else None)
         except Exception as e:   # noqa
             err = f'{type(e).__name__}: {e}'
-        bound = ns is not None and 'sa' in ns
-        val = np.array(ns['sa'], copy=True) if bound else None
+        bound = ns is not None and exvar in ns
+        val = np.array(ns[exvar], copy=True) if bound else None
         self.check_example(lang, int(m.group(1)) if m else None, pm.group(1) if pm else None, bound, val, err, L,
                            lambda v, e: D.arr_equal(v, e), st)
         if ns is not None:
